@@ -12,20 +12,27 @@ def run(tier):
         '(thorough: all 65536 ports on 16 addresses) x every output capacity 0..text+10 and STR_ADDR_LEN; '
         'parse: every string over {1,2,5,.,:,[,],space,a,f,/} up to length 6 (thorough 7), core+decoration strings, '
         'every prefix length/port as text; prefix arithmetic: every length 0..32/0..128 (+ out of range) on the same '
-        'address grids (thorough: all 2^32 IPv4 addresses). A case is non-trivial when the library call succeeded and '
+        'address grids (thorough: all 2^32 IPv4 addresses x all 33 lengths, one case per /24 block). A case is non-trivial when the library call succeeded and '
         'the whole oracle chain (text == reference, parse-back == address, result == integer arithmetic) was evaluated')
     rep.assumptions = [
         'reference text: snprintf dotted quad and an RFC 5952 formatter written in the harness (mixed notation also admitted for ::/96 and ::ffff:0:0/96, RFC 5952 section 5)',
         'documented spellings are recognised with libc inet_pton plus the bracket/port/prefix syntax shown in the header comments; inputs outside that set are only judged by "the address that came out is inet_pton of some part of the input"',
         'prefix reference: shifts on uint32_t / unsigned __int128, stored big-endian',
         'STR_ADDR_LEN is taken as the documented sufficient buffer (every caller in src/ uses it)']
-    with ThreadPoolExecutor(max_workers=2) as ex:
+    with ThreadPoolExecutor(max_workers=3) as ex:
         ft = ex.submit(core.compile_c, 'C18', 'h_c18_text', ['harness/C18/h_c18_text.c'] + SRC())
         fp = ex.submit(core.compile_c, 'C18', 'h_c18_prefix', ['harness/C18/h_c18_prefix.c'] + SRC(), (), 'gcc', '-O2')
         bins = {'text': ft.result(), 'prefix': fp.result()}
-    rep.configs = ['text: h_c18_text (gcc -O1 asan)', 'prefix: h_c18_prefix (gcc -O2 asan)']
-    for cfg in ('text', 'prefix'):
-        core.run_sharded(rep, bins[cfg], tier, config=cfg)
+        if tier == 'thorough':
+            # the 2^32-address sweep compares values only; memory safety of the same functions is the ASan build's job
+            bins['sweep'] = ex.submit(core.compile_c, 'C18', 'h_c18_sweep', ['harness/C18/h_c18_prefix.c'] + SRC(),
+                                      ('-DC18_SWEEP', '-flto'), 'gcc', '-O3', 'none').result()
+    rep.configs = ['text: h_c18_text.c (gcc -O1 asan)', 'prefix: h_c18_prefix.c (gcc -O2 asan)']
+    if 'sweep' in bins:
+        rep.configs.append('sweep: h_c18_prefix.c -DC18_SWEEP (gcc -O3 -flto, no sanitizer; thorough only)')
+    for cfg in ('text', 'prefix', 'sweep'):
+        if cfg in bins:
+            core.run_sharded(rep, bins[cfg], tier, config=cfg)
     # per-shard NOTE counters -> sums (measured, informational)
     sums = {}
     rest = []
